@@ -102,11 +102,12 @@ fn number_enumerals(
                     explicit
                 }
                 None => {
-                    while taken.contains(&next) {
+                    while taken.contains(&next) && next < i128::MAX {
                         next += 1;
                     }
-                    next += 1;
-                    next - 1
+                    let assigned = next;
+                    next = next.saturating_add(1);
+                    assigned
                 }
             };
             Enumeral {
